@@ -643,7 +643,7 @@ for _p in ('C01', 'C05', 'C10', 'C13', 'C18'):
 _SKE_THEOREMS = ['FV.Tie.Message_MarshalMsg_is_model', 'FV.Tie.Message_EncodeMsg_is_model', 'FV.Tie.MessageExt_MarshalMsg_is_model',
                  'FV.Tie.MessageExt_EncodeMsg_is_model', 'FV.Tie.Forward_MarshalMsg_is_model', 'FV.Tie.Forward_EncodeMsg_is_model',
                  'FV.Tie.Packed_MarshalMsg_is_model', 'FV.Tie.Packed_EncodeMsg_is_model'] + [
-    f'FV.Tie.{t}_{m}_is_model' for t in ('Entry', 'EntryExt', 'EntryList', 'Ping', 'Pong', 'Ack', 'HeloOpts', 'Helo') for m in ('MarshalMsg', 'EncodeMsg')]
+    f'FV.Tie.{t}_{m}_is_model' for t in ('Entry', 'EntryExt', 'EntryList', 'MessageOptions', 'Ping', 'Pong', 'Ack', 'HeloOpts', 'Helo') for m in ('MarshalMsg', 'EncodeMsg')]
 _SKE_TEXT = (" Regenerated tie for the encoders: the bodies of MarshalMsg / EncodeMsg of Message, MessageExt, PackedForwardMessage, Entry, EntryExt, "
              "Ping, Pong, AckMessage, HeloOpts, Helo (msgp-generated) and ForwardMessage (hand-written) are re-read from /repo's working tree on every run (Gen/Codec.lean, `.unknown` for anything "
              "unrecognised) and T_MarshalMsg_is_model / T_EncodeMsg_is_model (Tie/CodecEnc.lean) prove that running the regenerated body on a "
